@@ -55,20 +55,25 @@ def _merge(parts):
 
 
 def _threshold(ctx, cls):
-    """The buffer-size constant: `len(self.<buffer>) <cmp> K` in a method of the class."""
+    """The buffer-size constant: an integer K > 8 inside a comparison that also measures `len(self.<buffer>)`
+    (`len(buf) >= K`, `len(buf) % K == 0`, ...) in a method of the class."""
     found = []
     for m in cls.methods.values():
         for n in walk_own(m.node):
-            if isinstance(n, ast.Compare) and len(n.ops) == 1:
-                sides = [n.left, n.comparators[0]]
-                for a, b in (sides, sides[::-1]):
-                    if isinstance(a, ast.Call) and isinstance(a.func, ast.Name) and a.func.id == "len" and a.args and is_self_attr(a.args[0]):
-                        try:
-                            k = ctx.p.fold(m.module, b)
-                        except Exception:
-                            continue
-                        if type(k) is int and k > 8:
-                            found.append((k, m, n))
+            if not isinstance(n, ast.Compare):
+                continue
+            has_len = any(isinstance(a, ast.Call) and isinstance(a.func, ast.Name) and a.func.id == "len" and a.args and is_self_attr(a.args[0])
+                          for a in ast.walk(n))
+            if not has_len:
+                continue
+            for b in ast.walk(n):
+                if isinstance(b, (ast.Constant, ast.Name, ast.Attribute)):
+                    try:
+                        k = ctx.p.fold(m.module, b)
+                    except Exception:
+                        continue
+                    if type(k) is int and k > 8:
+                        found.append((k, m, n))
     return found
 
 
